@@ -1,8 +1,222 @@
 import Driver.Util
-/-! Line-protocol driver for C07 (not built yet). -/
+import GqlgenVerif.Model.ServerState
+import GqlgenVerif.Model.ServerStateCfg
+/-! Line-protocol driver for C07: runs `Model/ServerState` (configured from the regenerated
+`Gen/PoolReset.lean`) on the request histories of the Go harness.
+
+```
+def <hexquery> <0|1 valid> <sha256>          text ↦ result of gqlparser + its SHA-256 (both libraries)
+pq <hexvalue> absent|invalid|badVersion|ok <hexhash>   persistedQuery value ↦ mapstructure result
+newserver                                   a new handler.Server (caches empty; the sync.Pool is per process)
+req <id> <apqHit> <qcHit> <request…>        serve one request alone: get(newest pooled) ; run ; put
+witness                                     search the regenerated reset list for a leaking two-request history
+```
+`req` answers `<class> [params] apq=<digest> qc=<digest> | spec=<same|DIFF> poolzero=<0|1> pool=<n>`.
+-/
+open GqlgenVerif GqlgenVerif.SS
 namespace Driver.C07
-def step (_line : String) : String := "bad-op"
+
+abbrev Toks := List String
+
+def unhexS (s : String) : Option String :=
+  (unhex s).map fun bs => (String.fromUTF8? (ByteArray.mk (bs.map (·.toUInt8)).toArray)).getD ""
+
+def hexS (s : String) : String := hex (bytesOf s)
+
+partial def pKV : Toks → Option (KV × Toks)
+  | n :: rest => do
+    let cnt ← n.toNat?
+    let rec go (k : Nat) (ts : Toks) (acc : KV) : Option (KV × Toks) :=
+      if k = 0 then some (acc.reverse, ts) else
+      match ts with
+      | a :: b :: r =>
+        match unhexS a, unhexS b with
+        | some x, some y => go (k - 1) r ((x, y) :: acc)
+        | _, _ => none
+      | _ => none
+    go cnt rest []
+  | [] => none
+
+def pFJ : Toks → Option (FJ × Toks)
+  | "n" :: r => some (.null, r)
+  | "x" :: r => some (.other, r)
+  | "s" :: h :: r => (unhexS h).map fun s => (.str s, r)
+  | "o" :: r => (pKV r).map fun (kv, r') => (.obj kv, r')
+  | _ => none
+
+partial def pBody : Toks → Option (Body × Toks)
+  | "S" :: r => some (.syntaxErr, r)
+  | "N" :: r => some (.jnull, r)
+  | "X" :: r => some (.nonObject, r)
+  | "O" :: n :: rest => do
+    let cnt ← n.toNat?
+    let rec go (k : Nat) (ts : Toks) (acc : List (String × FJ)) : Option (List (String × FJ) × Toks) :=
+      if k = 0 then some (acc.reverse, ts) else
+      match ts with
+      | a :: r =>
+        match unhexS a, pFJ r with
+        | some key, some (v, r') => go (k - 1) r' ((key, v) :: acc)
+        | _, _ => none
+      | _ => none
+    let (ms, r) ← go cnt rest []
+    pure (.object ms, r)
+  | _ => none
+
+def pMapArg : Toks → Option (MapArg × Toks)
+  | "a" :: r => some (.absent, r)
+  | "S" :: r => some (.syntaxErr, r)
+  | "N" :: r => some (.jnull, r)
+  | "X" :: r => some (.nonObject, r)
+  | "o" :: r => (pKV r).map fun (kv, r') => (.object kv, r')
+  | _ => none
+
+def pReq : Toks → Option Req
+  | ["unsupported"] => some .unsupported
+  | "post" :: r => do
+    let (h, r) ← pKV r
+    let (b, _) ← pBody r
+    pure (.post h b)
+  | "get" :: r => do
+    let (h, r) ← pKV r
+    match r with
+    | bad :: q :: o :: r =>
+      let q ← unhexS q
+      let o ← unhexS o
+      let (v, r) ← pMapArg r
+      let (e, _) ← pMapArg r
+      pure (.get h (bad == "1") q o v e)
+    | _ => none
+  | "form" :: r => do
+    let (h, r) ← pKV r
+    match r with
+    | ["b"] => pure (.form h .bad)
+    | ["t", q] => (unhexS q).map fun q => .form h (.text q)
+    | "j" :: r => (pBody r).map fun (b, _) => .form h (.json b)
+    | _ => none
+  | "graphql" :: r => do
+    let (h, r) ← pKV r
+    match r with
+    | ["b"] => pure (.graphql h none)
+    | ["q", q] => (unhexS q).map fun q => .graphql h (some q)
+    | _ => none
+  | _ => none
+
+/-! rendering, identical to the harness (`showParams`, `digest`) -/
+
+def sortStr (l : List String) : List String := l.mergeSort fun a b => compare a b != .gt
+
+def showKV : Option KV → String
+  | none => "-"
+  | some [] => "~"
+  | some kv => ",".intercalate (sortStr (kv.map fun (k, v) => hexS k ++ ":" ++ hexS v))
+
+def showParams (p : Params) : String :=
+  s!"q={hexS p.query} o={hexS p.opName} v={showKV p.vars} e={showKV p.exts} h={showKV p.hdrs} rt={if p.readTime then 1 else 0}"
+
+def tName : Transport → String
+  | .post => "post" | .get => "get" | .form => "form" | .graphql => "graphql"
+
+def apqErrName : ApqErr → String
+  | .invalidData => "invalidData" | .badVersion => "badVersion" | .notFound => "notFound" | .hashMismatch => "hashMismatch"
+
+def showOutcome : Outcome String String → String
+  | .noTransport => "notransport"
+  | .transportError t c => s!"terr:{tName t}:{c}"
+  | .nilParams t => s!"nil:{tName t}"
+  | .apqError t e p => s!"apqerr:{tName t}:{apqErrName e} {showParams p}"
+  | .parseError t _ p => s!"perr:{tName t} {showParams p}"
+  | .executed t _ p => s!"exec:{tName t} {showParams p}"
+
+def hex16 (n : UInt64) : String :=
+  String.ofList ((List.range 16).reverse.map fun i => nib ((n.toNat >>> (4 * i)) % 16))
+
+def fnv (entries : List String) : String :=
+  let prime : UInt64 := 1099511628211
+  let h := (sortStr entries).foldl (fun (h : UInt64) e =>
+    let h := e.toUTF8.foldl (fun (h : UInt64) b => (h ^^^ b.toUInt64) * prime) h
+    (h ^^^ 0xff) * prime) (14695981039346656037 : UInt64)
+  s!"{entries.length}:{hex16 h}"
+
+def dedupKeys {V : Type} : List (String × V) → List (String × V)
+  | [] => []
+  | (k, v) :: r => (k, v) :: (dedupKeys r).filter (·.1 != k)
+
+structure DState where
+  defs : List (String × Bool × String) := []
+  pqs : List (String × ApqExt) := []
+  st : State String := State.fresh
+
+def envOf (d : DState) : Env String String where
+  sha q := match d.defs.lookup q with | some (_, h) => h | none => "?"
+  parse q := match d.defs.lookup q with
+    | some (true, _) => .ok q
+    | _ => .error q
+  apqOf v := (d.pqs.lookup v).getD .invalid
+
+def allZero (pool : List Params) : Bool := pool.all (· == Params.zero)
+
+/-- a two-request POST history that leaks under reset list `rs`, found by trying the canonical pair for each field -/
+def witnessFor (cfg : Cfg) : Option String :=
+  let env : Env String String := { sha := id, parse := .ok, apqOf := fun _ => .absent }
+  let h : KV := [("Content-Type", "[\"application/json\"]")]
+  let first : Req := .post (("X-Echo", "[\"one\"]") :: h)
+    (.object [("query", .str "A"), ("operationName", .str "A"), ("variables", .obj [("s", "\"x\"")]), ("extensions", .obj [("k", "1")])])
+  let seconds : List (String × Req) := [
+    ("Query", .post h (.object [("operationName", .str "B")])),
+    ("OperationName", .post h (.object [("query", .str "B")])),
+    ("Variables", .post h (.object [("query", .str "B"), ("variables", .obj [("t", "2")])])),
+    ("Extensions", .post h (.object [("query", .str "B"), ("extensions", .obj [("j", "2")])]))]
+  seconds.findSome? fun (f, r2) =>
+    let ch : Choice := ⟨some 0, true, true, false⟩
+    let out := (serveSeq cfg env State.fresh 0 [(first, ch), (r2, ch)]).2
+    match out[1]? with
+    | some (_, o) => if o != spec cfg env (fun _ => none) r2 then some f else none
+    | none => none
+
+def stepD (d : DState) (line : String) : DState × String :=
+  match line.splitOn " " with
+  | ["def", q, v, h] =>
+    match unhexS q with
+    | some q => ({ d with defs := (q, v == "1", h) :: d.defs }, "ok")
+    | none => (d, "bad-op")
+  | ["pq", v, cls, h] =>
+    match unhexS v, unhexS h with
+    | some v, some h =>
+      let c : ApqExt := if cls = "absent" then .absent else if cls = "badVersion" then .badVersion
+        else if cls = "ok" then .ok h else .invalid
+      ({ d with pqs := (v, c) :: d.pqs }, "ok")
+    | _, _ => (d, "bad-op")
+  | ["newserver"] => ({ d with st := { d.st with held := [], caches := ⟨[], []⟩ } }, "ok")
+  | ["witness"] =>
+    (d, match witnessFor genCfg with | some f => s!"leak {f}" | none => "none")
+  | "req" :: id :: a :: q :: rest =>
+    match id.toNat?, pReq rest with
+    | some id, some r =>
+      let env := envOf d
+      let ch : Choice := ⟨some 0, a == "1", q == "1", false⟩
+      let look := cacheGet d.st.caches.apq ch.apqHit
+      let res := runAll genCfg env d.st (eventsOf id r ch)
+      let s' := res.1
+      let o : Outcome String String := match res.2 with
+        | [(_, o)] => o
+        | _ => .noTransport
+      let same := o == spec genCfg env look r
+      let apqD := fnv ((dedupKeys s'.caches.apq).map fun (k, v) => k ++ "\x00" ++ v)
+      let qcD := fnv ((dedupKeys s'.caches.qc).map fun (k, _) => k ++ "\x00")
+      ({ d with st := s' },
+        s!"{showOutcome o} apq={apqD} qc={qcD} | spec={if same then "same" else "DIFF"} poolzero={if allZero s'.pool then 1 else 0} pool={s'.pool.length}")
+    | _, _ => (d, "bad-op")
+  | _ => (d, "bad-op")
+
+partial def loopS (h out : IO.FS.Stream) (d : DState) : IO Unit := do
+  let line ← h.getLine
+  if line.isEmpty then return ()
+  let l := if line.back == '\n' then line.dropRight 1 else line
+  let (d', o) := stepD d l
+  out.putStrLn o
+  loopS h out d'
+
 end Driver.C07
 
 def main : IO Unit := do
-  Driver.loop (← IO.getStdin) (← IO.getStdout) Driver.C07.step
+  Driver.C07.loopS (← IO.getStdin) (← IO.getStdout) {}
